@@ -591,16 +591,18 @@ theorem tickWills_fc (L : Fc11Laws P) (s : Server) (dt : Int) (hst : ∀ e ∈ s
 /-! ### the acknowledging handlers, under the local condition that the acting client's update keeps `P` -/
 
 theorem processPuback_fc (s : Server) (i id : Nat)
-    (hg : P (getObj s i) → P (incSend (flDelete (getObj s i) id).1)) : Fc11G P s (processPuback s i id).1 := by
+    (hg : ¬ (flGet (getObj s i) id).isNone = true → P (getObj s i) → P (incSend (flDelete (getObj s i) id).1)) :
+    Fc11G P s (processPuback s i id).1 := by
   unfold processPuback
   extract_lets +onlyGivenNames c
   split
   · exact Fc11G.refl s
-  · extract_lets +onlyGivenNames c'
-    exact ((Fc11G.refl s).set i c' hg).upd rfl rfl
+  · rename_i hn
+    extract_lets +onlyGivenNames c'
+    exact ((Fc11G.refl s).set i c' (hg hn)).upd rfl rfl
 
 theorem processPubrec_fc (s : Server) (i id rc : Nat)
-    (hg : if (rc ≥ 0x80 || !reasonValid 5 rc) = true then P (getObj s i) → P (flDelete (getObj s i) id).1
+    (hg : ¬ (flGet (getObj s i) id).isNone = true → if (rc ≥ 0x80 || !reasonValid 5 rc) = true then P (getObj s i) → P (flDelete (getObj s i) id).1
       else P (getObj s i) → P (flSet (decRecv (getObj s i))
         { type := 6, id := id, qos := 1, reasonCode := 0, created := NOW, expiry := NOW + s.caps.maxMessageExpiry }).1) :
     Fc11G P s (processPubrec s i id rc).1 := by
@@ -608,7 +610,9 @@ theorem processPubrec_fc (s : Server) (i id rc : Nat)
   extract_lets +onlyGivenNames c
   split
   · rw [ackRes_fst]; exact Fc11G.refl s
-  · split
+  · rename_i hn
+    have hg := hg hn
+    split
     · rename_i hb
       rw [if_pos hb] at hg
       extract_lets +onlyGivenNames c'
@@ -625,7 +629,7 @@ theorem fc11_dead_flSet (c : Client) (m : Msg) : dead (flSet c m).1 = dead c := 
   rw [← h.isOpen, ← h.peerGone]
 
 theorem processPubrel_fc (s : Server) (i id rc : Nat)
-    (hg : if (rc ≥ 0x80 || !reasonValid 6 rc) = true then P (getObj s i) → P (flDelete (getObj s i) id).1
+    (hg : ¬ (flGet (getObj s i) id).isNone = true → if (rc ≥ 0x80 || !reasonValid 6 rc) = true then P (getObj s i) → P (flDelete (getObj s i) id).1
       else if dead (getObj s i) = true then P (getObj s i) → P (flSet (getObj s i)
         { type := 7, id := id, reasonCode := 0, created := NOW, expiry := NOW + s.caps.maxMessageExpiry }).1
       else P (getObj s i) → P (flDelete (incSend (incRecv (flSet (getObj s i)
@@ -635,7 +639,9 @@ theorem processPubrel_fc (s : Server) (i id rc : Nat)
   extract_lets +onlyGivenNames c
   split
   · rw [ackRes_fst]; exact Fc11G.refl s
-  · split
+  · rename_i hn
+    have hg := hg hn
+    split
     · rename_i hb
       rw [if_pos hb] at hg
       extract_lets +onlyGivenNames c'
@@ -997,16 +1003,22 @@ theorem processPublish_fc (L : Fc11Laws P) (s : Server) (i : Nat) (qos : Nat) (d
 /-! ### one inbound packet -/
 
 /-- **the local condition on an inbound packet**: the update the handler makes to the acting client's own records
-    and quotas keeps `P` (per branch of the handler). Trivial for SUBSCRIBE, UNSUBSCRIBE, PINGREQ, DISCONNECT. -/
+    and quotas keeps `P` (per branch of the handler: PUBLISH — the deletion of a record found under the packet id;
+    PUBACK / PUBREC / PUBREL — only when a record with the packet id exists, by reason-code branch and, for PUBREL, by
+    whether the PUBCOMP can be written; PUBCOMP — always, `processPubcomp` does not look the record up).
+    Trivial for SUBSCRIBE, UNSUBSCRIBE, PINGREQ, DISCONNECT. -/
 def fc11PkOK (P : Client → Prop) (s : Server) (i : Nat) : InPk → Prop
   | .publish _ _ _ id _ _ _ _ =>
     fc11PubDel (getObj s i) id = true → P (getObj s i) → P (flDelete (getObj s i) id).1
-  | .puback id _ => P (getObj s i) → P (incSend (flDelete (getObj s i) id).1)
+  | .puback id _ =>
+    ¬ (flGet (getObj s i) id).isNone = true → P (getObj s i) → P (incSend (flDelete (getObj s i) id).1)
   | .pubrec id rc =>
+    ¬ (flGet (getObj s i) id).isNone = true →
     if (rc ≥ 0x80 || !reasonValid 5 rc) = true then P (getObj s i) → P (flDelete (getObj s i) id).1
     else P (getObj s i) → P (flSet (decRecv (getObj s i))
       { type := 6, id := id, qos := 1, reasonCode := 0, created := NOW, expiry := NOW + s.caps.maxMessageExpiry }).1
   | .pubrel id rc =>
+    ¬ (flGet (getObj s i) id).isNone = true →
     if (rc ≥ 0x80 || !reasonValid 6 rc) = true then P (getObj s i) → P (flDelete (getObj s i) id).1
     else if dead (getObj s i) = true then P (getObj s i) → P (flSet (getObj s i)
       { type := 7, id := id, reasonCode := 0, created := NOW, expiry := NOW + s.caps.maxMessageExpiry }).1
